@@ -204,7 +204,7 @@ def declared(cls, ds):
     return list(ds["quantitative"]), list(ds["qualitative"]), list(ds["ordinal"])
 
 
-def abstract_call(cls, ds, fitted_before):
+def abstract_call(cls, ds, fitted_before, min_freq=None):
     """the facts the guards of `fit` look at, measured on the very arguments of the last call (`LAST`)"""
     X, y, xd, yd = LAST["X"], LAST["y"], LAST["X_dev"], LAST["y_dev"]
     q, c, o = declared(cls, ds)
@@ -222,6 +222,18 @@ def abstract_call(cls, ds, fitted_before):
     dev_frame = isinstance(xd, pd.DataFrame)
     dev_y_ok = isinstance(yd, pd.Series) and not bool(yd.isna().any()) and dev_frame and aligned(yd, xd)
     present = lambda f: is_frame and f in X.columns
+
+    def examined(f):
+        """an ordinal feature whose most frequent value holds less than min_freq of the rows is dropped by
+        QualitativeDiscretizer._prepare_data before its values are compared with the ranking"""
+        if min_freq is None:
+            return True
+        try:
+            vc = X[f].value_counts(normalize=True, dropna=False)
+            vc = vc[[k for k in vc.index if fitgen.cell(k) is not None]]
+            return not (len(vc) and float(vc.max()) < min_freq)
+        except Exception:
+            return True
     return {
         "already_fitted": bool(fitted_before), "x_is_frame": is_frame,
         "missing_columns": is_frame and any(f not in X.columns for f in feats),
@@ -232,18 +244,18 @@ def abstract_call(cls, ds, fitted_before):
         "n_classes": len(vals), "y_is_zero_one": bool((0 in vals) and (1 in vals)),
         "y_has_strings": any(isinstance(v, str) for v in vals),
         "str_in_quant": any(isinstance(v, str) for f in q if present(f) for v in X[f].tolist()),
-        "outside_ranking": any(fitgen.cell(v) is not None and v not in ds["values_orders"].get(f, [v]) for f in o if present(f)
+        "outside_ranking": any(fitgen.cell(v) is not None and v not in ds["values_orders"].get(f, [v]) for f in o if present(f) and examined(f)
                                for v in X[f].tolist()),
     }
 
 
-def compare_guards(drv, cls, ds, fitted_before, outcome, msg, dropped_feature, stats):
+def compare_guards(drv, cls, ds, fitted_before, outcome, msg, dropped_feature, stats, min_freq=None):
     """the guard model (Lean `Validate.fitGuards`) on the abstract description of the call vs what the real `fit` did.
     `outcome`: 'ok', 'AssertionError' or another exception name"""
     if not LAST:
         return None
     try:
-        call = abstract_call(cls, ds, fitted_before)
+        call = abstract_call(cls, ds, fitted_before, min_freq)
     except Exception:
         stats["guard_model"]["not_described"] = stats["guard_model"].get("not_described", 0) + 1
         return None
@@ -353,7 +365,7 @@ def check_case(rng, stats, drv=None):
                     fit(obj, ds)
                     if drv is not None:
                         # the well-formed call: the guard model must accept it as well
-                        g = compare_guards(drv, cls, ds, False, "ok", "", False, stats)
+                        g = compare_guards(drv, cls, ds, False, "ok", "", False, stats, cfg["min_freq"])
                         if g is not None:
                             fails.append({**g, "class": cls, "case": desc, "defect": "none (well-formed call)", "fitted_before": False})
                     if not obj.features:
@@ -377,7 +389,7 @@ def check_case(rng, stats, drv=None):
                 fail(f"malformed input raised {type(e).__name__} instead of AssertionError ({defect}{', on a fitted object' if fitted_before else ''})",
                      defect=defect, fitted_before=fitted_before, error=str(e)[:200], exc=type(e).__name__)
             if drv is not None:
-                g = compare_guards(drv, cls, ds, fitted_before, outcome, msg, dropped, stats)
+                g = compare_guards(drv, cls, ds, fitted_before, outcome, msg, dropped, stats, cfg["min_freq"])
                 if g is not None:
                     fails.append({**g, "class": cls, "case": desc, "defect": defect, "fitted_before": fitted_before})
             if dropped:
